@@ -168,6 +168,15 @@ func (c *specCtx) lookupType(x ast.Expr) types.Type {
 		}
 	case *ast.ParenExpr:
 		return c.lookupType(t.X)
+	case *ast.InterfaceType:
+		if t.Methods == nil || len(t.Methods.List) == 0 {
+			return types.NewInterfaceType(nil, nil)
+		}
+	case *ast.MapType:
+		k, v := c.lookupType(t.Key), c.lookupType(t.Value)
+		if k != nil && v != nil {
+			return types.NewMap(k, v)
+		}
 	}
 	return nil
 }
